@@ -1,0 +1,16 @@
+//go:build verif
+
+// Contracts for the deductive verifier in /verif (govc). This file contains no code: with the
+// build tag off it is not part of the package, with it on it adds nothing to the build.
+package types
+
+//@ import sdk "github.com/cosmos/cosmos-sdk/types"
+
+// block.go — the block gas limit is a function of the block gas meter and the consensus parameters only (C01), and
+// reading it never fails (C20).
+//@ func BlockGasLimit(ctx sdk.Context) uint64
+//@   deterministic[C01.no_node_local_source]
+//@   modifies nothing
+//@   ensures[C01.block_gas_limit_from_header] (ctx.BlockGasMeter() != nil && gmLimit(payload(ctx.BlockGasMeter())) != 0) ==> result == gmLimit(payload(ctx.BlockGasMeter()))
+//@   ensures[C01.block_gas_limit_from_params] !(ctx.BlockGasMeter() != nil && gmLimit(payload(ctx.BlockGasMeter())) != 0) ==> result == (ctx.ConsensusParams().Block == nil ? 0 : (ctx.ConsensusParams().Block.MaxGas == -1 ? pow2(64) - 1 : (ctx.ConsensusParams().Block.MaxGas > 0 ? ctx.ConsensusParams().Block.MaxGas : 0)))
+//@   panics[C20.block_gas_limit_never_panics] never
